@@ -25,7 +25,7 @@ fn main() {
             let id = args.get(2).cloned().unwrap_or_else(|| usage());
             let tier = std::env::var("VERIF_TIER").ok().filter(|t| t == "quick" || t == "thorough").or(args.get(3).cloned()).unwrap_or_else(|| "quick".into());
             let mut cx = report::Ctx::new(&id, &tier, repo, verif);
-            let known_ids = ["C01", "C02", "C04", "C05", "C06", "C08", "C09", "C11", "C16", "C10", "C12", "C13", "C14"];
+            let known_ids = ["C01", "C02", "C03", "C04", "C05", "C06", "C08", "C09", "C11", "C16", "C10", "C12", "C13", "C14", "C18", "C19"];
             if !known_ids.contains(&id.as_str()) {
                 eprintln!("no check for {}", id);
                 std::process::exit(2)
@@ -35,10 +35,13 @@ fn main() {
                 match id.as_str() {
                     "C01" => rules::c01::run(&mut cx),
                     "C02" => rules::c02::run(&mut cx),
+                    "C03" => rules::c03::run(&mut cx),
                     "C04" => rules::c04::run(&mut cx),
                     "C05" => rules::c05::run(&mut cx),
                     "C06" => rules::c06::run(&mut cx),
                     "C16" => rules::c16::run(&mut cx),
+                    "C18" => rules::c18::run(&mut cx),
+                    "C19" => rules::c19::run(&mut cx),
                     "C08" => rules::c08::run(&mut cx),
                     "C09" => rules::c09::run(&mut cx),
                     "C10" => rules::c10::run(&mut cx),
